@@ -8,7 +8,7 @@ Local Open Scope string_scope.
 Lemma live_wf : tables_wf live = true.
 Proof. vm_compute. reflexivity. Qed.
 
-Lemma live_nss : tables_nss f20_pairs live = true.
+Lemma live_nss : tables_nss no_pairs live = true.
 Proof. vm_compute. reflexivity. Qed.
 
 (* a world in which every path exists and suits every format *)
@@ -28,9 +28,9 @@ Lemma live_idem W sac t :
   union_free t = true -> forall v v', coerce live W sac t v = Ok v' -> coerce live W sac t v' = Ok v'.
 Proof. apply coerce_idempotent_union_free, live_wf. Qed.
 
-Lemma live_nss_partial W sac t :
-  scalar_based t = true -> forall v v', coerce live W sac t v = Ok v' -> nss f20_pairs v v' = true.
-Proof. apply coerce_nss; [apply live_wf|apply live_nss|reflexivity]. Qed.
+Lemma live_nss_full W sac t :
+  scalar_based t = true -> forall v v', coerce live W sac t v = Ok v' -> nss no_pairs v v' = true.
+Proof. apply coerce_nss; [apply live_wf|apply live_nss]. Qed.
 
 (* ---- the theorems are not vacuous: conversions do happen *)
 Example ex_convert :
@@ -56,27 +56,12 @@ Proof.
   vm_compute in H. discriminate.
 Qed.
 
-(* a second, union-of-scalars witness: Union[Path, str] <- {"a"} gives "{'a'}", then PosixPath("{'a'}") *)
-Lemma idem_refuted_scalars :
-  coerce live W_all false (TUnion [TBase CPath; TBase CStr]) (VSet false [VStr "a"]) = Ok (VStr "{'a'}") /\
-  coerce live W_all false (TUnion [TBase CPath; TBase CStr]) (VStr "{'a'}") = Ok (VPath "{'a'}").
-Proof. split; vm_compute; reflexivity. Qed.
-
-Definition nss_statement : Prop :=
-  forall W sac t v v', scalar_based t = true -> coerce live W sac t v = Ok v' -> nss no_pairs v v' = true.
-
-Lemma str_to_set :
-  coerce live W_all false (TSet false (TBase CStr)) (VStr "abc") = Ok (VSet false [VStr "a"; VStr "b"; VStr "c"]).
+(* the conversions finding F20 was about are now rejected *)
+Example ex_str_to_set : coerce live W_all false (TSet false (TBase CStr)) (VStr "abc") = Err ETypeError.
 Proof. vm_compute. reflexivity. Qed.
-Lemma set_to_str : coerce live W_all false (TBase CStr) (VSet false [VStr "a"]) = Ok (VStr "{'a'}").
+Example ex_set_to_str : coerce live W_all false (TBase CStr) (VSet false [VStr "a"]) = Err ETypeError.
 Proof. vm_compute. reflexivity. Qed.
-Lemma bytes_to_list :
-  coerce live W_all false (TList (TBase CInt)) (VBytes "ab") = Ok (VList [VInt 97; VInt 98]).
+Example ex_bytes_to_list : coerce live W_all false (TList (TBase CInt)) (VBytes "ab") = Err ETypeError.
 Proof. vm_compute. reflexivity. Qed.
-
-Lemma nss_refuted_str_to_set : ~ nss_statement.
-Proof. intros H. specialize (H W_all false (TSet false (TBase CStr)) _ _ eq_refl str_to_set). vm_compute in H. discriminate. Qed.
-Lemma nss_refuted_set_to_str : ~ nss_statement.
-Proof. intros H. specialize (H W_all false (TBase CStr) _ _ eq_refl set_to_str). vm_compute in H. discriminate. Qed.
-Lemma nss_refuted_bytes_to_list : ~ nss_statement.
-Proof. intros H. specialize (H W_all false (TList (TBase CInt)) _ _ eq_refl bytes_to_list). vm_compute in H. discriminate. Qed.
+Example ex_multi_bytes : coerce live W_all false (TMulti (TBase CBytes)) (VBytes "ab") = Ok (VList [VBytes "ab"]).
+Proof. vm_compute. reflexivity. Qed.
